@@ -109,11 +109,11 @@ class Env:
 
     def __init__(self, xdev=False):
         self.oldtmp = tempfile.tempdir
-        self.root = pathlib.Path(tempfile.mkdtemp(prefix="eko-verif-fault-"))
+        self.root = pathlib.Path(tempfile.mkdtemp(prefix="verif-eko-fault-"))
         self.tmp = self.root / "tmp"
         if xdev:
             # the temporary area on another file system than the output folder (TMPDIR on a tmpfs is common)
-            self.tmp = pathlib.Path(tempfile.mkdtemp(prefix="eko-verif-fault-", dir=XDEV))
+            self.tmp = pathlib.Path(tempfile.mkdtemp(prefix="verif-eko-fault-", dir=XDEV))
         self.tmp.mkdir(exist_ok=True)
         (self.root / "out").mkdir()
         tempfile.tempdir = str(self.tmp)
